@@ -219,7 +219,7 @@ class World:
         out = Out()
         out.w('// GENERATED by /verif/vf/assemble.py from /repo -- do not edit.\n')
         out.w('#![allow(unused_imports, dead_code, unused_variables, unused_mut, unused_parens, non_snake_case, unused_braces, unused_assignments, unreachable_code, non_camel_case_types, unused_macros)]\n')
-        out.w('#![feature(slice_concat_trait)]\n')
+        out.w('#![feature(slice_concat_trait, pattern)]\n')
         out.w('use vstd::prelude::*;\n')
         out.w(open(os.path.join(VERIF, 'shim', 'macros.rs')).read())
         for sh in self.cfg['shim']:
@@ -692,7 +692,20 @@ class World:
                 if lp['kind'] != 'for':
                     raise Inconclusive(f'lost anchor: loop {n} of {cname} is not a for loop')
                 edits.append((lp['expr'][0], lp['expr'][0], f'{lc["iter"]}: '.encode()))
-            edits.append((lp['body'][0], lp['body'][0], ('\n' + lc['text'] + '\n').encode()))
+            inv_text, body_start, body_end = lc['text'], '', ''
+            mm = re.split(r'^\s*@(body-start|body-end)\s*:?\s*$', lc['text'], flags=re.M)
+            if len(mm) > 1:
+                inv_text = mm[0]
+                for k in range(1, len(mm), 2):
+                    if mm[k] == 'body-start':
+                        body_start = mm[k + 1]
+                    else:
+                        body_end = mm[k + 1]
+            edits.append((lp['body'][0], lp['body'][0], ('\n' + inv_text + '\n').encode()))
+            if body_start.strip():
+                edits.append((lp['body'][0] + 1, lp['body'][0] + 1, ('\n' + body_start + '\n').encode()))
+            if body_end.strip():
+                edits.append((lp['body'][1] - 1, lp['body'][1] - 1, ('\n' + body_end + '\n').encode()))
             self.counters['A2'] += 1
         unl = [l['ordinal'] for l in it['loops'] if l['ordinal'] not in c.loops]
         if unl:
